@@ -1,2 +1,72 @@
-(** C13 — statements only; see Proofs/. *)
-From RRSS Require Import Base.Outcome.
+(** C13 — Syntax errors are rejected and attributed to the line they occur on.
+    Statements only; proofs in Proofs/ParseSafe.v, ParseTotal.v (and C12's lexer theorems). *)
+From Coq Require Import List ZArith NArith Bool.
+From RRSS Require Import Base.Outcome Base.Chars Front.Ast Front.Token Front.Lexer Front.Parser Front.ParseErrorText.
+From RRSS Require Import Proofs.LexCorollaries Proofs.ParseSafe Proofs.ParseTotal.
+Import ListNotations.
+Open Scope N_scope.
+
+(** the line printed in a parse error is the start line of the token it points at *)
+Theorem C13_error_line_is_token_line :
+  forall e t, pe_loc e = PLTok t -> perr_line e = line (rstart (trange t)).
+Proof. exact error_line_is_token_line. Qed.
+
+(** every error of [parse] points at a token of the source's (comment-free) token list, or, when the
+    input ended, at the line the lexer had reached after the last token *)
+Theorem C13_error_located :
+  forall prof src e, byte_len src < u32_limit -> parse prof src = ParseErr e ->
+    exists pts, lex prof src = Ok pts /\
+      match pe_loc e with
+      | PLTok t => In t (map pt_tok (drop_comments pts))
+      | PLLine n => n = line_after (drop_comments pts)
+      end.
+Proof. exact parse_error_located. Qed.
+
+(** ... and the line reported for a token is its true line: one more than the number of line feeds
+    before its first byte in the source *)
+Theorem C13_error_token_true_line :
+  forall prof src e t, byte_len src < u32_limit -> parse prof src = ParseErr e -> pe_loc e = PLTok t ->
+    exists a b, src = a ++ tspell t ++ b /\ perr_line e = 1 + count_nl a.
+Proof. exact parse_error_token_line. Qed.
+
+(** nothing is silently dropped: a program is returned only from a state with no tokens left *)
+Theorem C13_accepted_consumes_all :
+  forall prof buf fuel s acc p, parse_blocks prof buf fuel s acc = Ok p ->
+    exists s', parse_blocks_st prof buf fuel s acc = Ok (p, s') /\ toks s' = [].
+Proof. exact accepted_consumes_all. Qed.
+
+(** the context-independent faults of the catalogue *)
+Theorem C13_error_token_rejected :
+  forall prof buf f s t m, current s = Some t -> tid t = TError m ->
+    parse_statement prof buf (S f) s = Err (mkPE PUnexpectedToken (PLTok t)).
+Proof. exact error_token_rejected. Qed.
+
+Theorem C13_statement_must_end_line :
+  forall s t, current (skip_opt (is_one_of [TComma; TDot]) s) = Some t -> ttype_eqb (tid t) TNewline = false ->
+    expect_eol s = Err (mkPE (PExpectedToken TNewline) (PLTok t)).
+Proof. exact expect_eol_rejects. Qed.
+
+Theorem C13_second_statement_on_line_rejected :
+  forall prof buf f inf s acc st s1 t,
+    parse_statement prof buf f s = Ok (Some st, s1) ->
+    inf && is_function_terminator st = false ->
+    current (skip_opt (is_one_of [TComma; TDot]) s1) = Some t -> ttype_eqb (tid t) TNewline = false ->
+    block_statements prof buf (S f) inf s acc = Err (mkPE (PExpectedToken TNewline) (PLTok t)).
+Proof. exact second_statement_on_line_rejected. Qed.
+
+Theorem C13_missing_operand_at_end :
+  forall prof f s, toks s = [] ->
+    parse_non_subscript_primary prof (S (S f)) s = Err (mkPE PExpectedPrimaryExpression (PLLine (pline s))).
+Proof. exact missing_operand_at_end. Qed.
+
+(** Non-vacuity: two statements on line 3 after a two-line comment; the error names line 3. *)
+Example C13_example :
+  match parse Debug (lit "(a" ++ [10] ++ lit "b)" ++ [10] ++ lit "say 1 say 2") with
+  | ParseErr e => perr_line e = 3 /\ pe_code e = PExpectedToken TNewline
+  | _ => False
+  end.
+Proof. vm_compute. split; reflexivity. Qed.
+
+Print Assumptions C13_error_located.
+Print Assumptions C13_error_token_true_line.
+Print Assumptions C13_accepted_consumes_all.
